@@ -47,7 +47,12 @@ Dec(ss, ct) == IF HasKey(ss) THEN ct.pt ELSE ct
 Kind(sc, side) ==
   IF sc.peer = "rogue" /\ ((side = "d" /\ sc.trole = "listener") \/ (side = "l" /\ sc.trole = "dialer"))
     THEN "rogue" ELSE "honest"
-IdOf(sc, side) == IF Kind(sc, side) = "rogue" THEN "R" ELSE IF side = "d" THEN "A" ELSE "B"
+\* "W" is a small-order Ed25519 key: it has no private key and a forged (R, S) pair satisfies the
+\* cofactorless verification equation for a message of the forger's choosing, so *anybody* "holds" W.
+\* A peer advertising W is therefore judged like a peer with its own key: it may be accepted as W
+\* (never as anybody else) -- the reference implementation behaves the same, see DESIGN.md C01.
+IdOf(sc, side) == IF Kind(sc, side) = "rogue" THEN (IF sc.pv = "weakKey" THEN "W" ELSE "R")
+                  ELSE IF side = "d" THEN "A" ELSE "B"
 StaticOf(sc, side) == IF Kind(sc, side) = "rogue" THEN Key("sRogue") ELSE IF side = "d" THEN Key("sA") ELSE Key("sB")
 EphOf(side) == IF side = "d" THEN Key("eD") ELSE Key("eL")
 Other(side) == IF side = "d" THEN "l" ELSE "d"
@@ -67,6 +72,7 @@ PayloadOf(sc, side) ==
          [] sc.pv = "unknownType"        -> Payload([t |-> "unknowntype"], Sig("R", <<"prefix", s>>), FALSE)
          [] sc.pv = "garbageSig"         -> Payload(Id("R"), [t |-> "garbage"], FALSE)
          [] sc.pv = "extraField"         -> Payload(Id("R"), Sig("R", <<"prefix", s>>), TRUE)
+         [] sc.pv = "weakKey"            -> Payload(Id("W"), Sig("W", <<"prefix", s>>), FALSE)
          [] sc.pv = "noncanonKey"        -> Payload([Id("R") EXCEPT !.canon = FALSE], Sig("R", <<"prefix", s>>), FALSE)
 
 -----------------------------------------------------------------------------
@@ -159,7 +165,7 @@ PeerIdentity(sc, role) == IF role = "dialer" THEN IdOf(sc, "l") ELSE IdOf(sc, "d
 
 MustErr(sc, role) ==
   \/ sc.mitm.msg # 0 /\ ~(role = "dialer" /\ sc.mitm.msg = 3)   \* the dialer is done before m3 travels
-  \/ sc.peer = "rogue" /\ sc.pv \notin {"asR", "extraField", "noncanonKey"}
+  \/ sc.peer = "rogue" /\ sc.pv \notin {"asR", "extraField", "noncanonKey", "weakKey"}
   \* the dialed peer id differs from the proven one: another key, or another multihash form
   \/ role = "dialer" /\ sc.dialed # "none" /\ (sc.dialed # PeerIdentity(sc, role) \/ sc.dialedForm # "inline")
 
